@@ -6,12 +6,15 @@ From Coq Require Import String Ascii.
 From V.lib Require Import Base.
 From V.c19 Require Import C19BoxCodec C19BoxModel.
 From V.c19 Require Import C19Model C19Spec C19InvProofs C19RecModel C19RecLinkProofs C19TreeModel C19TreeProofs.
+From V.c19 Require Import C19AacProofs.
 
 Definition lang_okb (lang : str) : bool := Nat.eqb (length lang) 3 || ((2 <=? lenN lang) && no_nulb lang).
 Definition desc_args_okb (d : desc) : bool :=
   match d with
   | DAvc _ spss ppss _ => nalus_fit 32 spss && nalus_fit 256 ppss
   | DHevc _ vpss spss ppss seis _ => nalus_fit 65536 vpss && nalus_fit 65536 spss && nalus_fit 65536 ppss && nalus_fit 65536 seis
+  (* samplingFrequency is a non-negative Go int *)
+  | DAac _ f => f <? 9223372036854775808
   | _ => true
   end.
 Definition op_args_okb (o : op) : bool :=
@@ -143,7 +146,7 @@ Section Args.
   Lemma entry_simple name a b c cfg :
     a < 65536 -> b < 65536 -> c < 65536 ->
     match cfg with
-    | CfgEsds _ => bytes_eqb name n_mp4a = true
+    | CfgEsds asc => bytes_eqb name n_mp4a = true /\ lenN asc <= 100
     | CfgDac3 _ => bytes_eqb name n_ac3 = true
     | CfgDec3 _ => bytes_eqb name n_ec3 = true
     | CfgVttC _ | CfgStpp _ _ _ => True
@@ -152,7 +155,8 @@ Section Args.
   Proof.
     intros Ha Hb Hc H. unfold entry_okb. cbn [se_dref se_a se_b se_c se_cfg se_name].
     rewrite (lt_b _ _ Ha), (lt_b _ _ Hb), (lt_b _ _ Hc). cbn [andb].
-    destruct cfg; try contradiction; try exact H; reflexivity.
+    destruct cfg; try contradiction; try exact H; try reflexivity.
+    destruct H as [H1 H2]. rewrite H1. apply N.leb_le. exact H2.
   Qed.
 
   Lemma set_desc_inv k t d : trak_inv (S k) t -> desc_args_okb d = true -> trak_inv k (snd (set_desc avc_parse hevc_parse t d)).
@@ -161,8 +165,9 @@ Section Args.
     - apply andb_true_iff in Hd. destruct Hd. apply set_avc_inv; assumption.
     - apply andb_true_iff in Hd. destruct Hd as [Hd K1]. apply andb_true_iff in Hd. destruct Hd as [Hd K2].
       apply andb_true_iff in Hd. destruct Hd as [Hd K3]. apply set_hevc_inv; assumption.
-    - unfold set_aac. destruct (asc_encode _ _ _ _); cbn [snd]; [|apply trak_inv_weaken; exact Ht].
-      apply stsd_add_inv; [exact Ht|]. apply entry_simple; try apply u16_lt; try reflexivity; destruct (o =? HEAACv2); lia.
+    - apply N.ltb_lt in Hd. unfold set_aac. destruct (asc_encode _ _ _ _) as [asc|] eqn:Ea; cbn [snd]; [|apply trak_inv_weaken; exact Ht].
+      apply stsd_add_inv; [exact Ht|]. apply entry_simple; try apply u16_lt; try (destruct (o =? HEAACv2); lia).
+      split; [reflexivity|]. apply asc_len in Ea; [lia|lia|]. destruct (_ || _); lia.
     - unfold set_ac3. destruct d as [fscod bsid bsmod acmod lfeon brc].
       destruct (acmod_channels acmod); cbn [snd]; [|apply trak_inv_weaken; exact Ht].
       destruct (ac3_rate fscod); cbn [snd]; [|apply trak_inv_weaken; exact Ht].
